@@ -75,7 +75,7 @@ def r07_transfer_once(ctx):
     n = 0
     summaries = {}
     for ri in gregory_rules(ctx):
-        t = ri.helpers.get('transfer')
+        t = ri.helper(ctx, 'transfer')
         need(t is not None, '%s.count has no local transfer()' % ri.cls.qualname)
         n += 1
         b = t.params[0]
